@@ -18,6 +18,34 @@ TMO = {1: 0.2, 2: 0.3, 3: 0.2}
 PACKETS = [(1, 9), (1, 2, 9), (3,), (7, 1)]
 
 
+class ParkPolicy:
+    """Targeted schedules for the two races TLC found in Retry.tla: keep a thread parked at one
+    particular yield point for as long as any other thread can run.
+      'cancel': the dispatcher inside _check_for_answers, parked in Timer.cancel() (event.set)
+      'start' : a retry timer thread inside send_packet, parked in Timer.start() (thread.start)
+    Otherwise lowest thread id first; time advances only when nothing can run (strict)."""
+
+    def __init__(self, which):
+        self.which = which
+
+    def _parked(self, r):
+        op = r.pending
+        if op is None:
+            return False
+        if self.which == 'cancel':
+            return r.name.startswith('_IncomingPacketHandler') and op.kind == 'event.set'
+        return r.name.startswith('Timer') and op.kind == 'thread.start'
+
+    def choose(self, sched, runnable, timed):
+        if not runnable:
+            return vsched.TICK
+        free = [r for r in runnable if not self._parked(r)]
+        # library threads (dispatcher, timers) before the application thread, so that they reach
+        # the parking point before the application goes on
+        free.sort(key=lambda r: (r.name.startswith('user'), r.tid))
+        return (free or runnable)[0]
+
+
 def execute(sc, mutant=None):
     import cflib.crazyflie as cfm
     from cflib.crtp.crtpstack import CRTPPacket
@@ -26,7 +54,10 @@ def execute(sc, mutant=None):
     pol = sc['policy']
     rng = random.Random(pol[1])
     strict = pol[0] in ('fifo', 'random0', 'pct0')
-    if pol[0] == 'fifo':
+    if pol[0] == 'park':
+        policy = ParkPolicy(pol[1])
+        strict = True
+    elif pol[0] == 'fifo':
         policy = vsched.FifoPolicy()
     elif pol[0] in ('random', 'random0'):
         policy = vsched.RandomPolicy(rng, tick_p=0.0 if strict else 0.15)
@@ -113,6 +144,13 @@ def execute(sc, mutant=None):
                     if dev.link is not None:
                         dev._fail_driver(dev.link)
                         vtime.sleep(0.001)
+                elif k == 'lerr0':         # the same without letting time pass
+                    if dev.link is not None:
+                        dev._fail_driver(dev.link)
+                        for _ in range(50):          # until the error report has been handled
+                            if cf.link is None:
+                                break
+                            vtime.sleep(0)
                 elif k == 'sleep':
                     vtime.sleep(op[1])
                 elif k == 'inject':
@@ -187,14 +225,20 @@ def systematic():
     # (a) the dispatcher parked inside _check_for_answers across close + open + a new request for
     #     the same pattern; (b) a resend in flight (timer thread parked inside send_packet) across
     #     link error + open.  Needs particular schedules: many PCT / random seeds each.
-    for seed in range(150):
+    race_a = [('open',), ('send', 3), ('inject', (3,)), ('close',), ('open',), ('send', 3), ('sleep', 1.0)]
+    race_b = [('open',), ('send', 1), ('sleep', 0.2), ('lerr0',), ('open',), ('sleep', 0.5)]
+    out.append({'ops': race_a, 'reliable': False, 'policy': ('park', 'cancel')})
+    out.append({'ops': race_b, 'reliable': False, 'policy': ('park', 'start')})
+    for p in (1, 2, 3):      # the same two shapes with the other patterns / a longer pattern pending too
+        out.append({'ops': [('open',), ('send', p), ('send', 2 if p != 2 else 1), ('inject', PACKETS[1]), ('close',), ('open',),
+                            ('send', p), ('sleep', 1.0)], 'reliable': False, 'policy': ('park', 'cancel')})
+        out.append({'ops': [('open',), ('send', p), ('sleep', TMO[p]), ('lerr0',), ('open',), ('send', p), ('sleep', 0.7)],
+                    'reliable': False, 'policy': ('park', 'start')})
+    for seed in range(40):
         for kind in ('pct0', 'random0'):
-            out.append({'ops': [('open',), ('send', 3), ('inject', (3,)), ('close',), ('open',), ('send', 3), ('sleep', 1.0)],
-                        'reliable': False, 'policy': (kind, seed)})
-    for seed in range(100):
+            out.append({'ops': race_a, 'reliable': False, 'policy': (kind, seed)})
         for kind in ('pct', 'random'):
-            out.append({'ops': [('open',), ('send', 1), ('sleep', 0.2), ('lerr',), ('sleep', 0.0), ('open',), ('sleep', 0.5)],
-                        'reliable': False, 'policy': (kind, seed)})
+            out.append({'ops': race_b, 'reliable': False, 'policy': (kind, seed)})
     return out
 
 
@@ -326,7 +370,7 @@ def judge(out, traces, label):
 def signature(t, clause, at, sc):
     ops = [o[0] for o in sc['ops']] if sc else []
     shape = 'reopen' if ops.count('open') > 1 else 'single-session'
-    how = 'lerr' if 'lerr' in ops else ('close' if 'close' in ops else 'none')
+    how = 'lerr' if ('lerr' in ops or 'lerr0' in ops) else ('close' if 'close' in ops else 'none')
     return '%s/%s/%s' % (clause, shape, how)
 
 
@@ -522,8 +566,7 @@ def main(tier, seed, replay=None):
     out.samples = [{'scenario': scs[i], 'events': traces[i]['ev'][:12]} for i in (0, 100, len(scs) - 1)]
 
     sub = systematic()[::2] + [gen_scenario(random.Random(seed + 7 + i), reliable=(i % 5 == 0)) for i in range(200)]
-    races = [sc for sc in systematic() if sc['policy'][1] < 150 and sc['ops'][1:3] in ([('send', 3), ('inject', (3,))],
-                                                                                  [('send', 1), ('sleep', 0.2)])]
+    races = [sc for sc in systematic() if sc['policy'][0] == 'park']
     for name in sorted(MUTANTS):
         mt = run_scenarios(races if name in ('reread_link', 'reread_patterns') else sub, mutant=name)
         for i, t in enumerate(mt):
